@@ -167,8 +167,13 @@ func newPluginContainer() *PluginContainer {
 }
 
 func (p *PluginContainer) cloneAndAppendMiddle(plugins ...Plugin) *PluginContainer {
+	// Copy the parent's plugins into a fresh slice: appending to the parent's
+	// slice directly may write into spare capacity shared with sibling clones.
+	parent := p.middle.GetAll()
 	middle := newPluginSingleContainer()
-	middle.plugins = append(p.middle.GetAll(), plugins...)
+	middle.plugins = make([]Plugin, 0, len(parent)+len(plugins))
+	middle.plugins = append(middle.plugins, parent...)
+	middle.plugins = append(middle.plugins, plugins...)
 
 	newPluginContainer := newPluginContainer()
 	newPluginContainer.middle = middle
